@@ -89,6 +89,15 @@ def check_issue(ctx, issue, where, passes):
         ctx.violation("offsets-outside-tag-span-or-text", where,
                       {"code": issue["code"], "span": [s, e], "char": [ci, cie], "len": len(text)})
     tag = issue["source_tag"]
+    # the span reported for the named tag/group must select that tag's own text in the validated string
+    own = getattr(tag, "org_tag", None)
+    if own is None and hasattr(tag, "get_original_hed_string") and getattr(tag, "is_group", False):
+        own = None if text[s:e][:1] == "(" and text[s:e][-1:] == ")" else "(group text)"
+        if own is not None:
+            ctx.violation("span-does-not-select-the-named-group", where, {"code": issue["code"], "span": [s, e], "slice": text[s:e]})
+    elif own is not None and not getattr(tag, "_tag", None) and text[s:e] != own:
+        ctx.violation("span-does-not-select-the-named-tag", where,
+                      {"code": issue["code"], "span": [s, e], "slice": text[s:e], "tag": own})
     if "index_in_tag" in issue and not getattr(tag, "_tag", None):
         frag = text[ci:cie]
         quoted = tag.org_tag[issue["index_in_tag"]:issue.get("index_in_tag_end")]   # what the message wrapper quotes
@@ -203,6 +212,9 @@ def run(ctx):
         cells = gen_strings(ctx, rows)
         df = pd.DataFrame({"onset": [str(1.0 + k) for k in range(rows)], "duration": ["n/a"] * rows, "HED": cells,
                            "cat": [ctx.rng.choice(["a", "b", "c", "n/a", "zz"]) for _ in range(rows)]})
+        if t % 2:
+            # no onset column: rows are validated as strings combined from their cells (span remapping)
+            df = df.drop(columns=["onset", "duration"])
         where = {"entry": "table", "cells": cells}
         try:
             on = TabularInput(df, sidecar=Sidecar(io.StringIO(json.dumps({"cat": sidecar["cat"]}))), name="t.tsv").validate(
